@@ -150,6 +150,12 @@ RetErr(s, retried) ==
   \* DESIGN.md 5, C14)
   retried => (goaway >= 0 /\ s > goaway)
 
+(* ... and a failure needs a CAUSE the server gave: the caller's own stream was reset, or the
+   connection is going away (GOAWAY; the server then hangs up).  Against a server that answers every
+   stream, "further requests wait for a stream to end rather than fail" (C12): a request that never
+   got a stream (s = 0) may not fail at all, and another stream's reset is nobody else's business. *)
+ErrCause(s) == goaway >= 0 \/ (s # 0 /\ st[s] = "reset")
+
 (* NoWedge at the end: every answered stream's caller has returned *)
 NoWedge(liveSids) == \A s \in liveSids : ~(respHead[s] /\ st[s] \in {"hs", "closed"})
                                         /\ ~(st[s] = "reset")
